@@ -604,3 +604,31 @@ func (vc *VC) dropObligsFrom(n int) {
 		}
 	}
 }
+
+// applyEntryGhosts performs the `ghost NAME = expr` updates of the contract at the start of the body
+// (after the entry state has been recorded, so that old(NAME) denotes the value before the update).
+func (fr *Frame) applyEntryGhosts(st *State) {
+	vc := fr.vc
+	if !fr.isTop || fr.spec == nil {
+		return
+	}
+	for _, ga := range fr.spec.EntryGhosts {
+		ok := false
+		for _, g := range vc.db.Ghosts {
+			if g.Name == ga.Name {
+				vc.comp(g.Name, g.Sort)
+				ctx := fr.specCtx(st, fr.entry, fr.fn.Blocks[0], 0)
+				t, err := ctx.eval(ga.E)
+				if err != nil {
+					vc.unsupportedf("ghost %s: %v", ga.Text, err)
+				} else {
+					vc.set(st, g.Name, ctx.coerceLit(t, g.Sort).S)
+				}
+				ok = true
+			}
+		}
+		if !ok {
+			vc.unsupportedf("ghost assignment to undeclared ghost %s", ga.Name)
+		}
+	}
+}
